@@ -294,6 +294,16 @@ func (s *Session) Mail(from string, opts *smtp.MailOptions) error {
 	s.msgLock.Lock()
 	defer s.msgLock.Unlock()
 
+	if s.delivery != nil {
+		// go-smtp does not refuse MAIL inside of a transaction. Starting
+		// a new one here would leave the current delivery open forever.
+		return &smtp.SMTPError{
+			Code:         503,
+			EnhancedCode: smtp.EnhancedCode{5, 5, 1},
+			Message:      "Nested MAIL command",
+		}
+	}
+
 	if !s.endp.deferServerReject {
 		// Will initialize s.msgCtx.
 		msgID, err := s.startDelivery(s.sessionCtx, from, *opts)
